@@ -59,6 +59,7 @@ def gen_case(seed, idx):
     case = {"idx": idx, "world": w, "place": place, "refusal": refusal, "options": opts,
             "cwd": rng.choice(["proj", "proj", "root", "elsewhere"]),
             "pages": rng.random() < 0.5, "copy_subdir": rng.random() < 0.5,
+            "copy_outside": rng.choice([None, None, "abs", "rel_existing"]),
             "media": rng.choice([None, "ok", "missing"]), "css": rng.random() < 0.4,
             "favicon": rng.random() < 0.3, "mathjax": rng.random() < 0.3, "extra_ft": rng.random() < 0.3,
             "graph_dir": rng.choice([None, "in", "out", "out_abs"]) if opts["graph"] else None,
@@ -164,7 +165,19 @@ def build(case, seed, root):
         files["proj/pages/a.md"] = "title: Page A\n\nA text\n"
         files["proj/pages/notitle.md"] = "no metadata here\n"
         files["proj/pages/data.csv"] = "1,2,3\n"
-        files["proj/pages/sub/index.md"] = "title: Sub\n%s\nSub text\n" % ("copy_subdir: assets\n" if case.get("copy_subdir") else "")
+        cs = ["assets"] if case.get("copy_subdir") else []
+        if case.get("copy_outside") == "abs":
+            # legal but unusual: an absolute path; FORD's copy then has source == destination == that
+            # directory and must fail harmlessly ("could not copy directory")
+            cs.append(root + "/precious/deep")
+        elif case.get("copy_outside") == "rel_existing":
+            # a relative entry whose *destination* (<out>/page/sub/<entry>) resolves to an existing
+            # bystander directory: the copy must fail without touching it
+            cs.append(os.path.relpath(root + "/precious", out + "/page/sub"))
+        meta = ""
+        if cs:
+            meta = "copy_subdir: %s\n" % cs[0] + "".join("    %s\n" % x for x in cs[1:])
+        files["proj/pages/sub/index.md"] = "title: Sub\n%s\nSub text\n" % meta
         files["proj/pages/sub/z.md"] = "title: Z\n\nZ text\n"
         files["proj/pages/sub/assets/img.png"] = "png"
         files["proj/pages/sub/assets/deeper/x.txt"] = "x"
@@ -217,9 +230,14 @@ def check_run(case, root, allowed, before, r, refusal):
     real_allowed = [os.path.realpath(a) for a in allowed]
     # (a) operation log
     n_mut = 0
+    failed = {op[1] for op in r["ops"] if op and op[0] == "fail"}
     for op in r["ops"]:
         if not isinstance(op[0], int) or len(op) < 5:
             continue
+        if op[0] in failed:
+            continue  # the real call raised: an attempt that had no effect on the file system
+        if any(isinstance(x, dict) and x.get("fault") in ("errno", "kill") for x in op):
+            continue  # the injected fault replaced the call: it never reached the file system
         n, idx, kind, path = op[0], op[1], op[2], op[3]
         if not idx or kind not in MUTATING:
             continue
@@ -475,7 +493,7 @@ def case_candidates(case):
             c = copy.deepcopy(case)
             c[k] = False
             yield "no " + k, c
-    for k in ("media", "graph_dir"):
+    for k in ("media", "graph_dir", "copy_outside"):
         if case.get(k):
             c = copy.deepcopy(case)
             c[k] = None
